@@ -22,8 +22,10 @@ func (cx *callCtx) applyClosure(ci int, args []Term) (res Term, ok bool) {
 	}
 	e := cx.fr.eng
 	vc := e.vc
+	saveNoname := vc.noname
 	defer func() {
 		if r := recover(); r != nil {
+			vc.noname = saveNoname
 			switch r.(type) {
 			case specErr, unsupported:
 				res, ok = "", false
